@@ -453,16 +453,17 @@ static void group_case(FILE *out, vf::Rng &rng, int nobj, int ngroups, bool exha
     arr = V::ArrayT();
     const long G = 1;   // grouping key id ("a")
     for (int i = 0; i < nobj; ++i) {
-        V   o;
-        o = V::ObjectT();
+        V    o(ValueType::Object, 8);   // capacity reserved: no growth, so a removed slot stays where it is
         long c   = exhaustive_code ? code : (long)(rng.next() >> 2);
         int  gv  = (int)(c % ngroups); c /= ngroups;
         int  pos = (int)(c % 3); c /= 3;          // position of the grouping key among 3 members
         int  kind = (int)(c % 5); c /= 5;
         bool removed = (c % 2) != 0; c /= 2;
         if (exhaustive_code) code = c;
+        int  dummy_at = removed ? (int)((gv + pos + kind) % 3) : -1;   // a member inserted before member #dummy_at and removed afterwards
         int slot = 0;
         for (int mbr = 0; mbr < 3; ++mbr) {
+            if (mbr == dummy_at) o["k5"] = (SizeT64)99;
             if (mbr == pos) {
                 V &g = o[key_text(G).c_str()];
                 switch (kind) {
@@ -484,18 +485,7 @@ static void group_case(FILE *out, vf::Rng &rng, int nobj, int ngroups, bool exha
                 }
             }
         }
-        if (removed) {   // an extra member that is removed again: leaves a removed slot in front of / between the others
-            V tmp;
-            tmp = V::ObjectT();
-            tmp["k5"] = (SizeT64)99;
-            tmp.Remove("k5");
-            // rebuild o behind a removed slot
-            for (SizeT x = 0; x < o.Size(); ++x) {
-                const Str *k = o.GetKey(x);
-                tmp[*k] = *o.GetValue(x);
-            }
-            o = Memory::Move(tmp);
-        }
+        if (removed) o.Remove("k5");   // leaves a removed slot before / between the members (possibly before the grouping key)
         arr += Memory::Move(o);
     }
     std::string before, jin, jout = "{\"t\":\"none\"}", after;
